@@ -11,8 +11,24 @@ pub fn bindir() -> PathBuf {
     PathBuf::from(std::env::var("VERIF_BINDIR").unwrap_or_else(|_| "/verif/target/bins-release/release".to_string()))
 }
 
+/// A loopback address private to this process (the whole 127.0.0.0/8 is local on Linux): shards run as separate
+/// processes, and a late retransmission of one shard's server towards a closed, recycled client port must never
+/// reach another shard's socket.
+pub fn local_ip() -> String {
+    static IP: std::sync::OnceLock<String> = std::sync::OnceLock::new();
+    // per process, decided on first use AFTER the fork (OnceLock is copied by fork, so the pid is part of the check)
+    let pid = std::process::id();
+    let ip = format!("127.{}.{}.1", 16 + ((pid >> 8) & 0x7f), pid & 0xff);
+    let cached = IP.get_or_init(|| ip.clone());
+    if *cached == ip {
+        cached.clone()
+    } else {
+        ip
+    }
+}
+
 pub fn free_port() -> u16 {
-    let s = UdpSocket::bind("127.0.0.1:0").expect("bind probe socket");
+    let s = UdpSocket::bind(format!("{}:0", local_ip())).expect("bind probe socket");
     s.local_addr().unwrap().port()
 }
 
@@ -75,6 +91,21 @@ impl Server {
                     }
                     return Err(StartError::Exited(st.code().unwrap_or(-1), e));
                 }
+                // no (recognised) banner after a second: ask the port itself - a listening server answers a stray ACK with an ERROR
+                if t0.elapsed() > Duration::from_secs(1) && !ip.contains(':') {
+                    if let Ok(probe) = UdpSocket::bind(format!("{}:0", ip)) {
+                        let _ = probe.set_read_timeout(Some(Duration::from_millis(200)));
+                        let target = format!("{}:{}", ip, port);
+                        let _ = probe.send_to(&[0, 4, 0, 0], &target);
+                        let mut b = [0u8; 64];
+                        if let Ok((n, _)) = probe.recv_from(&mut b) {
+                            if n >= 4 && b[1] == 5 {
+                                let addr: SocketAddr = target.parse().unwrap();
+                                return Ok(Server { child, port, addr, out_path, err_path });
+                            }
+                        }
+                    }
+                }
                 if t0.elapsed() > Duration::from_secs(10) {
                     let _ = child.kill();
                     let _ = child.wait();
@@ -87,7 +118,7 @@ impl Server {
     }
 
     pub fn start(args: &[String], logdir: &Path) -> Result<Server, StartError> {
-        Server::start_on("127.0.0.1", args, logdir, None)
+        Server::start_on(&local_ip(), args, logdir, None)
     }
 
     /// None = still running
@@ -125,7 +156,7 @@ pub struct Client {
 
 impl Client {
     pub fn new() -> Client {
-        let sock = UdpSocket::bind("127.0.0.1:0").expect("bind client");
+        let sock = UdpSocket::bind(format!("{}:0", local_ip())).expect("bind client");
         Client { sock }
     }
     pub fn new_v6() -> Option<Client> {
